@@ -1,14 +1,58 @@
-(* C08 — reference cycles are reported as errors. Runtime facts (panics, stack, hangs) are not
-   theorems; see DESIGN.md. *)
+(* C08 — reference cycles of every kind are reported as errors.
+   What a theorem can carry here is the logic: on cyclic inputs the model returns an error (the circular-reference
+   class when the depth guard fires), for EVERY depth limit, so never a value and never non-termination (Gallina
+   functions are total). That the Go process does not panic, overflow its stack or hang is a fact about the
+   runtime, established by executing every case in a child process under limits (DESIGN.md, C08). *)
 From Coq Require Import String Ascii List ZArith.
-From Bkl Require Import Model.Value Model.Str Model.Eval Proofs.EvalProofs.
+From Bkl Require Import Model.Value Model.Str Model.Eval Model.Files Proofs.EvalProofs Proofs.InterpProofs Proofs.FilesProofs.
 Import ListNotations.
 Local Open Scope string_scope.
 Local Open Scope list_scope.
 
-(* a string reference that resolves to itself ends in the circular-reference error, for every depth limit *)
+(* $merge: string that resolves to itself *)
 Theorem C08_self_cycle : forall o cur fuel S k,
   get o S cur (VStr k) = Ok (VStr ("$merge:" ++ k), (cur, [k])) ->
   exists e, p1 o cur fuel S None (VStr ("$merge:" ++ k)) = Err e.
 Proof. exact p1_self_cycle. Qed.
 Print Assumptions C08_self_cycle.
+
+(* a: $merge:b, b: $merge:a *)
+Theorem C08_mutual_cycle : forall o cur S a b,
+  get o S cur (VStr a) = Ok (VStr ("$merge:" ++ b), (cur, [a])) ->
+  get o S cur (VStr b) = Ok (VStr ("$merge:" ++ a), (cur, [b])) ->
+  forall fuel, (exists e, p1 o cur fuel S None (VStr ("$merge:" ++ a)) = Err e) /\ (exists e, p1 o cur fuel S None (VStr ("$merge:" ++ b)) = Err e).
+Proof. exact p1_two_cycle. Qed.
+Print Assumptions C08_mutual_cycle.
+
+(* a $replace host referring to itself *)
+Theorem C08_replace_self : forall o cur S m r org,
+  lookup "$merge" m = None -> lookup "$replace" m = Some r -> get o S cur r = Ok (VMap m, org) ->
+  forall fuel loc, exists e, p1 o cur fuel S loc (VMap m) = Err e.
+Proof. exact p1_replace_self. Qed.
+Print Assumptions C08_replace_self.
+
+(* self-referential interpolation: a: $"{a}" *)
+Theorem C08_interp_cycle : forall o S di ec k,
+  noclose k -> get_with_var o S di ec k = Ok (VStr ("$""" ++ String "{"%char (k ++ String "}"%char """"))) ->
+  is_interp ("$""" ++ String "{"%char (k ++ String "}"%char """")) = true ->
+  trim_suffix """" (trim_prefix "$""" ("$""" ++ String "{"%char (k ++ String "}"%char """"))) = String "{"%char (k ++ String "}"%char "") ->
+  forall fuel, exists e, p2_string o S di fuel ec ("$""" ++ String "{"%char (k ++ String "}"%char """")) = Err e.
+Proof. exact interp_self_cycle. Qed.
+Print Assumptions C08_interp_cycle.
+
+(* a subtree merged into itself: the target contains the host *)
+Theorem C08_self_containing : forall o cur f S p m r inn kp,
+  lookup "$merge" m = Some r -> get o (write_doc S cur (Some p) (VMap (remove "$merge" m))) cur r = Ok (inn, (cur, kp)) ->
+  keys_prefix kp p = true -> p1 o cur (Datatypes.S f) S (Some p) (VMap m) = Err ECircular.
+Proof. intros o cur f S p m r inn kp H1 Hg Hk. cbn [p1]. rewrite H1, Hg. cbn [bind]. now rewrite Nat.eqb_refl, Hk. Qed.
+Print Assumptions C08_self_containing.
+
+(* $parent cycles between files *)
+Theorem C08_parent_cycle : forall f fmts fs path cid chain, In path chain -> load_chain (S f) fmts fs path cid chain = Err ECircular.
+Proof. exact load_cycle. Qed.
+Print Assumptions C08_parent_cycle.
+
+(* non-vacuity: the premises of C08_interp_cycle hold for a: $"{a}" *)
+Example C08_interp_premises :
+  noclose "a" /\ is_interp "$""{a}""" = true /\ trim_suffix """" (trim_prefix "$""" "$""{a}""") = "{a}".
+Proof. repeat split; reflexivity. Qed.
